@@ -199,3 +199,27 @@ def rootParse (codes : List Bool) (m : MR) : Except Err Tree :=
       .ok (Tree.node 0 (toks 0 s ++ content ++ toks e n))
 
 end SqlfluffVerif.MatchResult
+
+namespace SqlfluffVerif.MatchResult
+
+/-- indent value of an inserted meta kind: 0 Indent (+1), 1 Dedent (−1), 2 ImplicitIndent (+1) -/
+def kindVal (k : Nat) : Int := if k = 0 then 1 else if k = 1 then -1 else if k = 2 then 1 else 0
+
+def metaSum : Tree → Int
+  | .tok _ => 0
+  | .ins k _ => kindVal k
+  | .node _ ch => metaSumList ch
+where metaSumList : List Tree → Int
+  | [] => 0
+  | t :: ts => metaSum t + metaSumList ts
+
+def metaSumL (ts : List Tree) : Int := metaSum.metaSumList ts
+
+def insVals (ins : List (Nat × Nat)) : Int := (ins.map (fun i => kindVal i.2)).sum
+
+/-- total indent value of every insert in a match tree (fuel = nesting bound) -/
+def insSumF : Nat → MR → Int
+  | 0, _ => 0
+  | f + 1, .mk _ _ _ ins ch => insVals ins + (ch.map (insSumF f)).sum
+
+end SqlfluffVerif.MatchResult
